@@ -33,7 +33,7 @@ fn laws(st: &mut Stats, a: &DataType, tn: &str, b: &DataType, vs: &[Value], k: u
                         Err(e) => st.violation(json!({"kind":"value-of-convertible-type-not-converted","source_type":a.to_string(),"target":tn,"converted_type":img.to_string(),"value":v.to_string(),"error":e,
                             "site": if matches!(v, Value::Float(_)) && tn.contains("integer") { "Base<Float,DataType>::value" } else { "other" }})),
                         Ok(w) => if !img.contains(w) {
-                            let negzero = matches!(v, Value::Float(f) if **f == 0.0 && f.is_sign_negative()) && tn.contains("text");
+                            let negzero = matches!(v, Value::Float(f) if **f == 0.0 && (f.is_sign_negative() || a.to_string().contains("-0"))) && tn.contains("text");
                             st.violation(json!({"kind":"converted-value-outside-converted-type","class": if negzero { "negative-zero-into-text" } else { "other" },"source_type":a.to_string(),"target":tn,"converted_type":img.to_string(),"value":v.to_string(),"converted_value":w.to_string()}));
                         }
                     }
